@@ -32,7 +32,9 @@ CONSTANTS
     AvailRing,  \* code: bits.UintSize - rounds retained by probeAvailability (bits of a uint)
     LatRing,    \* code: latencyProbeResultSize - rounds retained by the two latency policies
     T,          \* probe timeout in latency units (code: ConnectivityProbeConfig.Timeout)
-    UnitNs,     \* nanoseconds per latency unit; the code averages in whole nanoseconds
+    UnitNs,     \* nanoseconds per latency unit; the code averages in whole nanoseconds.  (TLC integers are 32
+                \* bits: when the real unit is a multiple of LatRing the average is exact and every score is
+                \* proportional to the unit, so the checks then pass LatRing itself as the unit.)
     Alpha,      \* Alpha[i+1]: the outcomes position i can produce (subset of 0..T)
     Conc,       \* code: ConnectivityProbeConfig.Concurrency as configured (workers = min(Conc, N))
     Callers,    \* goroutines that call the group (Select)
@@ -100,14 +102,14 @@ Better(p, a, b) == IF p = "availability" THEN a > b ELSE a < b
 \* The value the scan starts from: bestSuccessCount = 0 / bestAvgLatency = pc.timeout / bestMaxLatency = pc.timeout.
 ScanInit(p) == IF p = "availability" THEN 0 ELSE T * UnitNs
 
-\* The scan: "for i, result := range probeResult { if score better than best { bestIndex = i; best = score } }"
-\* with bestIndex initially 0.
 \* The scores of all positions as a tuple (sc[i + 1] is the score of position i), built eagerly so that TLC
 \* computes each score once.
 RECURSIVE ScoresFrom(_, _, _)
 ScoresFrom(p, rg, i) == IF i = N THEN <<>> ELSE <<Score(p, rg, i)>> \o ScoresFrom(p, rg, i + 1)
 Scores(p, rg) == ScoresFrom(p, rg, 0)
 
+\* The scan: "for i, result := range probeResult { if score better than best { bestIndex = i; best = score } }"
+\* with bestIndex initially 0 (strict improvement, configuration order).
 RECURSIVE Scan(_, _, _, _, _)
 Scan(p, sc, i, bi, bs) ==
     IF i = N THEN bi
